@@ -40,6 +40,11 @@ func PathElem(t *rapid.T, hostility int, label string) string {
 	case k < 52:
 		return pick(t, reservedish, label)
 	case k < 62:
+		if Chance(t, 30, label+"longtilde") {
+			// a digit run after the tilde that does not fit in 64 (or 63) bits, or only just does
+			run := []string{"9999999999999999999", "99999999999999999999", "18446744073709551615", "18446744073709551616", "9223372036854775807", "9223372036854775808", "100000000000000000000", "7777777777777777777777777", "000000000000000000000000000001"}[Uniform(t, 9, label+"run")]
+			return pick(t, plainWords, label) + "~" + run + []string{"", "", ".txt", ".a.b"}[Uniform(t, 4, label+"runext")]
+		}
 		return pick(t, tildeForms, label)
 	case k < 70:
 		return pick(t, dotForms, label)
